@@ -80,7 +80,7 @@ HISTORY = {
     "C14-8": "missed at first (at most 6 endpoints): new directed part `many-observers-on-one-resource` (up to 1000 endpoints)",
     "C16-7": "missed at first (`rel` was not among the generated keys): keys now include rel/rev/type/hreflang/media, repeated keys are common",
     "C16-8": "missed at first (values had no control characters): value alphabet now has C0/C1 controls and DEL",
-    "C17-6": "quick tier cannot see it: the recursion only overflows the stack in an unoptimised build (with opt-level 2 the tail call is a loop). The thorough tier got an unoptimised build configuration with 2 MiB thread stacks for C03/C17 and inputs with thousands of repeated units between two attributes; the stack overflow aborts the harness and the driver reports the in-flight case as the VIOLATION. Since the sixth wave that configuration also runs in the quick tier",
+    "C17-6": "at first the quick tier could not see it: the recursion only overflows the stack in an unoptimised build (with opt-level 2 the tail call is a loop). The thorough tier got an unoptimised build configuration with 2 MiB thread stacks for C03/C17 and inputs with thousands of repeated units between two attributes; the stack overflow aborts the harness and the driver reports the in-flight case as the VIOLATION. Since the sixth wave that configuration also runs in the quick tier",
     "C20-7": "missed at first: the key under test is now the two-segment path k, v and the intervening traffic includes its look-alikes ('k/v', trailing / leading empty segment, other case, other endpoint, other method)",
     "C05-8": "missed at first (C05 only exercised the conversions; C06 caught the same change): every named option / content format is now also encoded through the message API and read off the wire with the reference parser",
     "C07-7": "missed at first (one specific option value): new exhaustive part with every one-byte No-Response value on all four message types, plus bare requests",
